@@ -156,7 +156,7 @@ class Check(Property):
         sgn = "-" if rng.random() < 0.25 else ""
         expo = rng.choice(["", "", "e3", "e+3", "e-04", "E+2", "e+03", "e-2", "E-07", "e12", "e+0", "e 3", "E3"])
         tail = rng.choice(["", " m", " meter", " m/s", "*m", " kg", " * 2", " + 1", ")", " (", " e", " eV"])
-        form = rng.choice(["paren_pm", "paren_pm", "unicode", "bare_pm", "nparen", "nparen", "plain", "tight"])
+        form = rng.choice(["paren_pm", "paren_pm", "unicode", "bare_pm", "nparen", "nparen", "plain", "tight", "nparen_pre"])
         sp = rng.choice([" ", " ", ""])
         if form == "paren_pm":
             s = f"({sgn}{n}{sp}+/-{sp}{num(99)}){expo}{tail}"
@@ -169,6 +169,9 @@ class Check(Property):
         elif form == "nparen":
             sd = str(rng.randint(1, 99)) if rng.random() < 0.8 else num(9)
             s = f"{sgn}{n}({sd}){expo}{tail}"
+        elif form == "nparen_pre":
+            # the exponent written with the value: 1.50e3(2) is (1.50 +/- 0.02) e3
+            s = f"{sgn}{n}{rng.choice(['e3', 'E3', 'e+2', 'e-2', 'E-04', 'e0'])}({rng.randint(1, 99)}){rng.choice(['', ' m', ' meter'])}"
         else:
             s = rng.choice(["2 * (3 + 4) m", "meter/(second + 1)", "3 m(2)", "f(2)", "(1 + / - 2)", "1 +/ 2", "(a +/- 2)", "(1 +/- b) m",
                             "2 (3) e3", "+ / -", "(1.0 +/- 0.1", "1.0(2", "4 e3", "(-1 +/- 1)", "(- 1 +/- 1)e1"]) + rng.choice(["", " m"])
@@ -343,11 +346,16 @@ class Check(Property):
         import re
         v = []
         s = c["s"]
-        m = re.fullmatch(r"\((-?)(\d+(?:\.\d+)?)\s*(?:\+/-|±)\s*(\d+(?:\.\d+)?)\)((?:e\d+|[eE][+-]\d+)?)( m| meter)?", s)      # the exponent forms the tokenizer accepts
-        m2 = re.fullmatch(r"(-?)(\d+(?:\.\d+)?)\((\d+(?:\.\d+)?)\)((?:e\d+|[eE][+-]\d+)?)( m| meter)?", s)
-        if not (m or m2):
+        m = re.fullmatch(r"\((-?)(\d+(?:\.\d+)?)\s*(?:\+/-|±)\s*(\d+(?:\.\d+)?)\)((?:[eE]\d+|[eE][+-]\d+)?)( m| meter)?", s)      # the exponent forms
+        m2 = re.fullmatch(r"(-?)(\d+(?:\.\d+)?)\((\d+(?:\.\d+)?)\)((?:[eE]\d+|[eE][+-]\d+)?)( m| meter)?", s)
+        m3 = re.fullmatch(r"(-?)(\d+(?:\.\d+)?)([eE][+-]?\d+)\((\d+)\)( m| meter)?", s)
+        if not (m or m2 or m3):
             return v
-        if m:
+        if m3:
+            sg, n, ex, sd, unit = m3.groups()
+            nom = Fraction(n)
+            std = Fraction(int(sd), 10 ** len(n.partition(".")[2]))
+        elif m:
             sg, n, sd, ex, unit = m.groups()
             nom, std = Fraction(n), Fraction(sd)
         else:
